@@ -9,3 +9,6 @@ import Argot.Props.C08
 import Argot.Props.C11
 import Argot.Props.C04
 import Argot.Props.C12
+import Argot.Props.C01
+import Argot.Props.C14
+import Argot.Props.C02
